@@ -68,11 +68,12 @@ def uplus(tier):
          {}, {"a": 1}, {"a": 1, "b": 2}, {"b": []}, {"a": {"a": 1}}, {"": 0}, [HUGE, 1.5], {"a": HUGE},
          deep(10), [True, 1, 1.0], {"a": None, "b": "x"},
          # sizes beyond anything a message helper might special-case
-         dict(("k%d" % i, i) for i in range(25)), list(range(25)), "a" * 5000, dict(("p%d" % i, "v") for i in range(120)),
+         dict(("k%d" % i, i) for i in range(25)), list(range(25)), "a" * 5000,
          # characters that mean something to %-formatting, str.format and reprs
          "100%", "%s %(a)s %d", "{0} {a} {", "\\ ' \" \n", {"50%": 1, "{x}": 2, "%(k)s": 3}, ["%", "{}"]]
     if tier == "thorough":
-        u += [2, 0.5, 3, "é", "aa", [0], ["a", "a"], [None], [{"a": 1}], {"ab": 0, "b": 1}, {"a": [1, "a"]},
+        u += [dict(("p%d" % i, "v") for i in range(120)), list(range(300)),
+              2, 0.5, 3, "é", "aa", [0], ["a", "a"], [None], [{"a": 1}], {"ab": 0, "b": 1}, {"a": [1, "a"]},
               [[1], [True]], 1e-320, float(2 ** 53), {"a": {}, "b": {}, "ab": {}}, deep(12),
               [1, 2, 3, 4, 5, 6, 7, 8, 9, 10]]
     return u
@@ -474,8 +475,8 @@ def run_reuse(unit, ctx):
                                  "detail": {"exception": r[1], "where": r[2], "failing_call": r[0]}})
         # an iteration that is started, left suspended while another call runs, finished, and followed by a call
         for h in hold_ops:
-            for mid in (ops if ctx.thorough else ops[::2]):
-                for last in (ops[::3] if ctx.thorough else ops[::5]):
+            for mid in (ops if ctx.thorough else ops[::3]):
+                for last in (ops[::3] if ctx.thorough else ops[::6]):
                     hist = (h, mid, ("resume", 0), last)
                     ev += 1
                     r = run_history(d, S, hist)
@@ -487,8 +488,8 @@ def run_reuse(unit, ctx):
                                               "history": [[op, REUSE_INSTANCES[xi]] for op, xi in hist[:r[0] + 1]]},
                                      "detail": {"exception": r[1], "where": r[2], "failing_call": r[0]}})
         # use, lend the store to a second resolver, use again
-        for first in ops[::2]:
-            for last in ops:
+        for first in (ops[::2] if ctx.thorough else ops[::3]):
+            for last in (ops if ctx.thorough else ops[::2]):
                 hist = (first, ("lend-store", 3), last)
                 ev += 1
                 r = run_history(d, S, hist)
@@ -536,9 +537,9 @@ def run_multi(unit, ctx):
         if not ok_schema(d, S):
             continue
         nsch += 1
-        for x0 in MULTI_INSTANCES:
+        for x0 in (MULTI_INSTANCES if ctx.thorough else MULTI_INSTANCES[:7]):
             x = wi(x0)
-            for entry in (ENTRY + ("cli",) if i % 4 == 0 else ENTRY):
+            for entry in (ENTRY + ("cli",) if i % (2 if ctx.thorough else 8) == 0 else ENTRY):
                 if entry.endswith("FormatChecker") and "format" not in json.dumps(S):
                     continue
                 ev += 1
